@@ -28,7 +28,7 @@ RULE = ('Expression strings from four families: (i) EXHAUSTIVE matrix {every att
         'the whitelist; distinct by ast.dump.')
 ASSUMPTIONS = ['audit events are the observable for I/O, import, exec/compile, process, socket and ctypes use (CPython raises them for all of these)',
                'bytes/complex/Ellipsis literals evaluate to plain data and are not interpreter internals']
-REQUIRED_CLASSES = ['matrix', 'node_coverage', 'payload', 'ctx_rules_file', 'ctx_views', 'outcome_value', 'outcome_rejected', 'outcome_error']
+REQUIRED_CLASSES = ['matrix', 'function_matrix', 'node_coverage', 'payload', 'ctx_rules_file', 'ctx_views', 'outcome_value', 'outcome_rejected', 'outcome_error']
 ALL_EXHAUSTIVE = False
 
 INTERNAL_RE = re.compile(r'<(class|function|built-in|bound method|module|method-wrapper|method|generator object|slot wrapper|code object|frame object|cell)\b|'
@@ -142,7 +142,10 @@ def run_expr(src, stats_classes=None):
     try:
         try:
             tree = ep.parse_expression(src)
-            tree_dump = ast.dump(tree)
+            try:
+                tree_dump = ast.dump(tree)
+            except RecursionError:  # the harness' own dump of a very deep tree: skip the AST-unchanged check for this string
+                tree_dump = None
         except ep.ExpressionError:
             outcome = 'rejected'
             tree = None
@@ -164,12 +167,14 @@ def run_expr(src, stats_classes=None):
             except Exception as e:
                 raise Violation(f'evaluate_transaction({src[:200]!r}) raised {type(e).__name__}: {str(e)[:200]} (not an expression error)', case,
                                 'eval-escape:' + type(e).__name__)
-            if ast.dump(tree) != tree_dump:
+            if tree_dump is not None and ast.dump(tree) != tree_dump:
                 raise Violation(f'evaluating {src!r} changed the parsed expression', case, 'ast-mutated')
             # views evaluator
             try:
                 ctx = ep.create_context(transactions=[{'amount': 5.0, 'date': _dt.datetime(2024, 1, 15), 'category': 'Food', 'subcategory': 'S', 'merchant': 'M',
-                                                       'tags': ['a']}], num_months=12, variables={'label': 'x'})
+                                                       'tags': ['a']}, {'amount': 7.5, 'date': _dt.datetime(2024, 2, 15), 'category': 'Food', 'subcategory': 'S',
+                                                                        'merchant': 'M', 'tags': ['a']}], num_months=12,
+                                        variables={'label': 'x', 'description': 'UBER', 'orders': [1, 2], 'amount': 5.0})
                 v2 = ep.evaluate(src, ctx)
                 b = bad_value(v2)
                 if b:
@@ -321,6 +326,28 @@ def matrix_strings(part, nparts):
             yield f'[x.{name} for x in [{recv}]]' if False else f'[x.{name} for x in orders]'
 
 
+def function_names():
+    import builtins, collections, functools, itertools, json as _json, math, operator, os as _os, statistics, string, sys as _sys
+    names = set()
+    for mod in (builtins, statistics, math, itertools, functools, operator, re, _os, _sys, collections, _dt, _json, ast, string, types, copy):
+        names |= {n for n in dir(mod) if not n.startswith('__') or n in ('__import__', '__build_class__')}
+    names |= {n.lower() for n in names}
+    return sorted(n for n in names if n.isidentifier())
+
+
+FUNC_SHAPES = ['{f}()', '{f}(payments)', '{f}("a b", "c d")', '{f}(1, 2)', '{f}(description)', '{f}(orders)', '{f}(amount)', '{f}("os")', 'trim({f})', '{f}(payments, 1)']
+
+
+def function_matrix_strings(part, nparts):
+    k = 0
+    for f in function_names():
+        k += 1
+        if k % nparts != part:
+            continue
+        for shape in FUNC_SHAPES:
+            yield shape.replace('{f}', f)
+
+
 # ------------------------------------------------------------------------------------------------
 # (ii) node coverage
 # ------------------------------------------------------------------------------------------------
@@ -431,6 +458,11 @@ def check_generated(src, stats: Stats):
     exercise(src, stats, 'generated', files=len(src) < 400, sample=stats.evaluations % 97 == 0)
 
 
+def check_fuzz(src, stats: Stats):
+    """coverage-guided campaign: expression-level contexts only (cheap), the same oracle"""
+    exercise(src, stats, 'fuzz', files=False)
+
+
 def replay(case):
     if case['kind'] == 'expr':
         run_expr(case['src'])
@@ -440,7 +472,7 @@ def replay(case):
 
 def shards(tier):
     n = 250 if tier == 'quick' else 20000
-    return [(f'matrix:{i}:12', 0) for i in range(12)] + [('nodes', 0), ('payloads', 0)] + [('generated', n)] * (4 if tier == 'quick' else 16)
+    return [(f'matrix:{i}:10', 0) for i in range(10)] + [(f'functions:{i}:2', 0) for i in range(2)] + [('nodes', 0), ('payloads', 0)] + [('generated', n)] * (4 if tier == 'quick' else 16)
 
 
 def run_shard(kind, n, seed, tier):
@@ -454,6 +486,11 @@ def run_shard(kind, n, seed, tier):
                 # file-level contexts for a deterministic 1-in-16 slice of the matrix (they cost ~10x more)
                 exercise(src, s, 'matrix', files=(i % (16 if tier == 'quick' else 4) == 0), sample=(i % 5003 == 0))
             s.exhaustive[f'attribute matrix {len(attr_names())} names x {len(RECEIVERS)} receivers x 8 shapes (expression-level contexts)'] = True
+        elif kind.startswith('functions'):
+            _, part, nparts = kind.split(':')
+            for i, src in enumerate(function_matrix_strings(int(part), int(nparts))):
+                exercise(src, s, 'function_matrix', files=(i % 40 == 0), sample=(i % 3001 == 0))
+            s.exhaustive[f'function-name matrix: {len(function_names())} public names of builtins/statistics/math/itertools/functools/operator/re/os/sys/... x {len(FUNC_SHAPES)} call shapes, both evaluators'] = True
         elif kind == 'nodes':
             missing = [k for k in NODE_SNIPPETS if k.startswith('MISSING_')]
             if missing:
